@@ -83,6 +83,8 @@ pub(crate) struct TipModel<'a> {
     /// sampled path, both still below the stored tip) is in flight
     start: u8,
     base_height: u64,
+    /// thorough: also the child whose number skips one block
+    more_forgeries: bool,
     track: RefCell<Track>,
 }
 
@@ -149,16 +151,26 @@ impl<'a> TipModel<'a> {
         let (ci, n) = self.locate(&parent.hash())?;
         let chain = self.chains()[ci];
         let true_parent_td = chain.tds[n as usize].clone();
+        // variants 0..2: a chain root that claims another total difficulty; 3..5: the true chain root
+        // of the parent (consistent with it in every field) under a header that is NOT the parent's
+        // successor: its number (3: + 1000, 4: + 2) or its epoch (5: the next epoch) is rewritten
         let td = match variant {
             0 => U256::one() << 100,
             1 => true_parent_td.clone() + U256::one(),
-            _ => true_parent_td.clone() - U256::one(),
+            2 => true_parent_td.clone() - U256::one(),
+            _ => true_parent_td.clone(),
         };
         let root = chain.roots[n as usize].clone().as_builder().total_difficulty(td.pack()).build();
         let (e, i, l, compact) = chain.plan.locate(n + 1);
+        let (number, e, i) = match variant {
+            3 => (n + 1000, e, i),
+            4 => (n + 2, e, i),
+            5 => (n + 1, e + 1, 0),
+            _ => (n + 1, e, i),
+        };
         let vh = world::seal_vh(
             &self.env.consensus,
-            n + 1,
+            number,
             root,
             compact,
             EpochNumberWithFraction::new(e, i, l),
@@ -280,7 +292,7 @@ impl<'a> Model for TipModel<'a> {
             if p == 2 && t.forgeries < 2 {
                 let proven = sim.c().peers.get_state(&PeerIndex::new(p)).and_then(|s| s.get_prove_state().cloned()).is_some();
                 if proven {
-                    for variant in 0..3u8 {
+                    for variant in if self.more_forgeries { vec![0u8, 1, 2, 3, 4, 5] } else { vec![0u8, 1, 2, 3, 5] } {
                         v.push(Ev::Forged(p, variant));
                     }
                 }
@@ -562,6 +574,7 @@ fn make_model<'a>(env: &'a Env, n_peers: usize, start: u8) -> TipModel<'a> {
         n_peers,
         start,
         base_height: 14,
+        more_forgeries: false,
         track: RefCell::new(Track::default()),
     }
 }
@@ -603,6 +616,7 @@ pub(crate) fn run(opts: &Opts, report: &mut Report) {
             n_peers,
             start,
             base_height: 14,
+            more_forgeries: thorough,
             track: RefCell::new(Track::default()),
         };
         let mut st0 = bfs::Stats::default();
@@ -686,6 +700,7 @@ pub(crate) fn debug_case() {
         n_peers: getn("C12_PEERS", 2) as usize,
         start: getn("C12_START", 0) as u8,
         base_height: 14,
+        more_forgeries: true,
         track: RefCell::new(Track::default()),
     };
     let evs: Vec<Ev> = std::env::var("C12_EVENTS")
